@@ -20,7 +20,7 @@ from common import Model
 
 logging.disable(logging.CRITICAL)
 
-LEAN_TARGETS = ["NfcVerif.Props.C19", "drv_c19"]
+LEAN_TARGETS = ["NfcVerif.Props.C19", "drv_c19", "NfcVerif.Props.TablesDep"]
 THEOREMS = [
     "NfcVerif.C19.negotiated_limits",
     "NfcVerif.C19.negotiated_llc",
@@ -593,6 +593,7 @@ def cases(ck):
 
 
 def run(ck):
+    ck.tables("TablesDep")   # T-tie for constants: source tables re-extracted, bridge theorems re-proved
     from common import exc_name
     from sims import act_air
     rng = ck.rng
